@@ -71,6 +71,13 @@ def gen_instance(rng, iid, family='random', nmax_geos=6):
   npm = max(npm, n_test + 3)
   nprng = np.random.RandomState(rng.randint(0, 2 ** 31 - 1))
   cells = gen_panel(nprng, n, n_dates, mirror=(family == 'cancel'))
+  if n >= 2 and rng.random() < 0.15:
+    # a few (geo, date) records are missing from the long frame (the canonical data object reads them as zero);
+    # every date keeps at least one record
+    for _ in range(rng.randint(1, 3)):
+      g, d = rng.randint(1, n), rng.randint(0, n_dates - 1)
+      if sum(1 for gg in range(1, n + 1) if (gg, d) in cells) > 1:
+        cells.pop((g, d), None)
   if rng.random() < 0.3:
     elig = ['ctx'] * n
     default_elig = rng.random() < 0.7
